@@ -181,7 +181,8 @@ def check(ctx):
     fc = [c for c in walk_own(wr.node) if isinstance(c, ast.Call) and isinstance(c.func, (ast.Name, ast.Subscript)) and
           (norm(c.func) in ('func', '%s[0]' % va))]
     ctx.need(len(tries) >= 1 and len(fc) == 1, 'wrapper: try / action call not found')
-    t = tries[0]
+    with_call = [t_ for t_ in tries if any(fc[0] is c for s in t_.body for c in walk_own(s))]
+    t = with_call[0] if with_call else tries[0]              # the try around the action (another one may guard the unpacking of the arguments)
     in_try = any(fc[0] is c for s in t.body for c in walk_own(s))
     hs = [h for h in t.handlers if catches_everything(h)]
     rep = [c for h in hs for s in h.body for c in walk_own(s) if method_call(c, 'report_error') and h.name and
